@@ -79,13 +79,86 @@ def run_verification(pid, nproc=None):
     trusted = [ident for ident in api.ORDER if pid in api.REGISTRY[ident].props and api.REGISTRY[ident].trusted]
     nproc = nproc or min(16, max(1, len(jobs)))
     t0 = time.time()
-    if len(jobs) <= 1:
-        results = [_verify_one(j) for j in jobs]
-    else:
-        ctx = mp.get_context('fork')
-        with ctx.Pool(nproc) as pool:
-            results = pool.map(_verify_one, jobs, chunksize=1)
+    results = run_jobs(jobs, nproc)
     return merge_cases(results), time.time() - t0
+
+
+JOB_MEM_BYTES = int(os.environ.get('PYVC_JOB_MEM_GB', '10')) * (1 << 30)     # address-space limit per verification job
+JOB_WALL_S = int(os.environ.get('PYVC_JOB_WALL_S', '1500'))                   # wall-clock limit per verification job
+
+
+def _child(job, conn):
+    try:
+        import resource
+        resource.setrlimit(resource.RLIMIT_AS, (JOB_MEM_BYTES, JOB_MEM_BYTES))
+    except Exception:
+        pass
+    try:
+        out = _verify_one(job)
+    except MemoryError:
+        out = {'ident': job[1], 'status': 'RESOURCE', 'detail': 'memory limit reached', 'obligations': {}, 'paths': 0, 'vcs': 0, 'time_s': 0,
+               'assumptions': [], 'source_sha': '', 'line': 0}
+    try:
+        conn.send(out)
+    finally:
+        conn.close()
+
+
+def run_jobs(jobs, nproc):
+    """one process per job, at most nproc at a time, each under a memory and a wall-clock limit.  z3 occasionally (and not reproducibly)
+    runs away on a query -- tens of GB, ignoring its timeout; such a job is killed and run once more; if it fails again the function
+    is reported UNDECIDED (resource limit), never as a violation, and the run goes on"""
+    ctx = mp.get_context('fork')
+    results = [None] * len(jobs)
+    attempts = [0] * len(jobs)
+    pending = list(range(len(jobs)))
+    running = {}          # index -> (process, parent_conn, start)
+
+    def resource_result(k, why):
+        job = jobs[k]
+        ident = ('static::' + job[1]) if job[0] == 'static' else job[1]
+        return {'ident': ident, 'status': 'UNDECIDED', 'detail': 'resource limit: %s (twice)' % why, 'obligations': {}, 'paths': 0, 'vcs': 0,
+                'time_s': 0, 'assumptions': [], 'source_sha': '', 'line': 0}
+    while pending or running:
+        while pending and len(running) < nproc:
+            k = pending.pop(0)
+            pc, cc = ctx.Pipe(duplex=False)
+            p = ctx.Process(target=_child, args=(jobs[k], cc))
+            p.start()
+            cc.close()
+            attempts[k] += 1
+            running[k] = (p, pc, time.time())
+        time.sleep(0.05)
+        for k in list(running):
+            p, pc, st = running[k]
+            out = None
+            why = None
+            if pc.poll():
+                try:
+                    out = pc.recv()
+                except EOFError:
+                    why = 'worker died'
+            elif not p.is_alive():
+                why = 'worker died (killed or out of memory)'
+            elif time.time() - st > JOB_WALL_S:
+                p.kill()
+                why = 'wall-clock limit %d s' % JOB_WALL_S
+            if out is None and why is None:
+                continue
+            p.join(timeout=5)
+            pc.close()
+            del running[k]
+            if out is not None and out.get('status') == 'RESOURCE':
+                why, out = out['detail'], None
+            if out is not None and out.get('status') == 'ERROR' and ('MemoryError' in out.get('detail', '') or 'out of memory' in out.get('detail', '')):
+                why, out = 'z3 out of memory', None
+            if out is not None:
+                results[k] = out
+            elif attempts[k] < 2:
+                pending.append(k)
+            else:
+                results[k] = resource_result(k, why)
+    return results
 
 
 _RANK = {'PROVED': 0, 'TRUSTED': 0, 'UNDECIDED': 1, 'UNSUPPORTED': 2, 'ERROR': 3, 'REFUTED': 4}
